@@ -816,7 +816,7 @@ class C05(Profile):
         if op["op"] in ("new", "reset") and out.ok:
             o = world.objs[op["p"]]
             src = capture(lambda: np.asarray(self._res(world, op["src"])))
-            if src.ok and src.value.dtype.kind in "biufc":
+            if src.ok and src.value.dtype.kind in "biuf":       # real records only (C05's quantifier); complex ones come from fas2signal
                 why = values_close(np.asarray(o.values), src.value, 0.0)
                 if why:
                     return dict(base, invariant="I4:takes-source-values", cls=_cls_name(o), victim=op["p"],
@@ -1183,7 +1183,7 @@ class Gen(object):
             # K1: a sized argument that cannot become a numeric array, of another length than the current record
             n = len(world.objs[p].values)
             k = rng.choice([2, 3, 5]) if n not in (2, 3, 5) else 7
-            raw = [[1.0, 2.0]] + [[3.0]] * (k - 1)
+            raw = rng.choice([[[1.0, 2.0]] + [[3.0]] * (k - 1), None, "abc", 5, 2.5])   # ragged, or not sized at all
             return {"op": "reset", "p": p, "src": {"raw": raw}, "k1": True}
         src = self._src(world)
         if "vals" in src and src["vals"] == p and rng.random() < 0.5:
